@@ -17,8 +17,6 @@ RUST_TY = {"rgb_u8": "Srgb<u8>", "rgba_u8": "Srgba<u8>", "rgb_u16": "Srgb<u16>",
            "rgb_u32": "Srgb<u32>", "rgba_u32": "Srgba<u32>", "rgb_f32": "Srgb<f32>", "rgba_f32": "Srgba<f32>",
            "rgb_f64": "Srgb<f64>", "rgba_f64": "Srgba<f64>"}
 HEXD = set("0123456789abcdefABCDEF")
-# TLC wraps printed tuples at 80 columns by default; the REJECT / REPLAY lines must stay on one line
-WIDE = {"JAVA_TOOL_OPTIONS": "-Dtlc2.value.Values.width=1000000"}
 DIGIT_COUNTS = {"rgb_u8": {3, 6}, "rgba_u8": {4, 8}, "rgb_u16": {3, 6, 12}, "rgba_u16": {4, 8, 16},
                 "rgb_f32": {3, 6, 12}, "rgba_f32": {4, 8, 16}, "rgb_u32": {3, 6, 12, 24}, "rgba_u32": {4, 8, 16, 32},
                 "rgb_f64": {3, 6, 12, 24}, "rgba_f64": {4, 8, 16, 32}}      # only used to LABEL a rejected event
@@ -57,9 +55,9 @@ def models(ctx):
         full = {"Sym": FULL_SYM, "MaxLen": 5, "CountLen": 5, "EmitLen": 4, "Lattice": "TRUE"}
         red = {"Sym": RED_SYM_T, "MaxLen": 8, "CountLen": 7, "EmitLen": 0, "Lattice": "FALSE"}
     with ThreadPoolExecutor(3) as ex:
-        f1 = ex.submit(tlc_mc, ctx, "MC_Hex", constants=full, tag="hex_full", workers=2, env=WIDE)
-        f2 = ex.submit(tlc_mc, ctx, "MC_Hex", constants=red, tag="hex_reduced", workers=2, env=WIDE)
-        f3 = ex.submit(tlc_mc, ctx, "MC_Packed", tag="packed", workers=2, env=WIDE)
+        f1 = ex.submit(tlc_mc, ctx, "MC_Hex", constants=full, tag="hex_full", workers=2)
+        f2 = ex.submit(tlc_mc, ctx, "MC_Hex", constants=red, tag="hex_reduced", workers=2)
+        f3 = ex.submit(tlc_mc, ctx, "MC_Packed", tag="packed", workers=2)
         r1, r2, r3 = f1.result(), f2.result(), f3.result()
     for r, allowed in ((r1, set()), (r2, {"ExtendFmt", "ExtendWiden"}), (r3, set())):
         zero = set(coverage_zero_actions(r.out_path, {"MC_Hex", "MC_Packed"})) - allowed
@@ -174,13 +172,8 @@ def validate(ctx, files, tag):
                     out.write(line)
                     m = re.search(r'"ev":"(\w+)"', line)
                     kinds[m.group(1)] = kinds.get(m.group(1), 0) + 1
-    res = validate_trace(ctx, "TraceHex", allp, stateless=True, chunk_events=25000, tag=tag, env=WIDE)
-    # safety net: a REJECT tuple that TLC wrapped over several lines would not have been recognised
-    for o in ctx.work.glob(tag + ".chunk*.tlc.out"):
-        with open(o) as f:
-            for line in f:
-                if line.startswith('<< "'):
-                    raise ToolError("TLC wrapped a printed tuple in %s (line width setting not honoured): %s" % (o, line.strip()))
+    # (common._java sets -Dtlc2.value.Values.width so that TLC never wraps a REJECT / REPLAY tuple over several lines)
+    res = validate_trace(ctx, "TraceHex", allp, stateless=True, chunk_events=25000, tag=tag)
     return res, kinds, allp
 
 
@@ -205,8 +198,16 @@ def run(ctx):
     if missing:
         raise ToolError("vacuity: no %s event was recorded" % missing)
     ctx.cov["traces_validated_against_impl"] += res.events - len(res.rejected)
-    for f in files:
-        add_samples(ctx, f, n=1)
+    # samples for the evidence: the first accepted parse and the first event of a few other kinds, verbatim
+    want = ["parse", "count", "fmt", "pack", "packdef", "name", "const", "rtsweep"]
+    with open(allp) as f:
+        for line in f:
+            m = re.search(r'"ev":"(\w+)"', line)
+            if m and m.group(1) in want and (m.group(1) != "parse" or '"r":1' in line):
+                want.remove(m.group(1))
+                ctx.cov["samples"].append(json.loads(line) if len(line) < 1500 else line[:1500])
+                if not want:
+                    break
 
     # totals of the compressed sweeps
     swept = {"strings_parsed_in_full_space_sweep": 0, "colours_round_tripped": 0, "packed_values_swept": 0,
